@@ -39,6 +39,9 @@ func (s *sim) deliverMutatedPart(a, b *simNode, src *types.PartSet, rb *cstypes.
 		}
 		p.Index, p.Proof.Index = uint32(other), int64(other)
 	case "bytes":
+		if len(p.Bytes) == 0 {
+			return false
+		}
 		p.Bytes[len(p.Bytes)/2] ^= 1
 	case "leafhash":
 		p.Proof.LeafHash[0] ^= 1
@@ -77,6 +80,9 @@ func (s *sim) deliverMutatedPart(a, b *simNode, src *types.PartSet, rb *cstypes.
 		if total < 2 || it.part < split || p0 == nil || len(p0.Proof.Aunts) == 0 || len(p.Proof.Aunts) == 0 {
 			return false
 		}
+		if len(p.Bytes) == 0 {
+			return false
+		}
 		top := len(p.Proof.Aunts) - 1
 		p.Proof.Aunts[top] = append(p.Proof.Aunts[top], p0.Proof.Aunts[len(p0.Proof.Aunts)-1]...)
 		p.Bytes[len(p.Bytes)/2] ^= 1
@@ -110,10 +116,19 @@ func (s *sim) deliverMutatedPart(a, b *simNode, src *types.PartSet, rb *cstypes.
 // checkAssembled: a completed part set reassembles to exactly the bytes the header commits to.
 func (m *monitor) checkAssembled(n *simNode, rs *cstypes.RoundState) {
 	e := m.s.env
-	if !e.Checking("C10") || rs.ProposalBlock == nil || rs.ProposalBlockParts == nil || !rs.ProposalBlockParts.IsComplete() {
+	if !e.Checking("C10") || rs.ProposalBlockParts == nil || !rs.ProposalBlockParts.IsComplete() {
 		return
 	}
 	key := string(rs.ProposalBlockParts.Hash())
+	if rs.ProposalBlock == nil {
+		if m.altEnc[key] && !m.assembled["nil/"+key] {
+			// the Byzantine proposer's pieces are the bytes of a well-formed block: a node that holds
+			// all of them must have reassembled it
+			m.assembled["nil/"+key] = true
+			e.Fail("C10", "complete-part-set-not-reassembled", "node %d holds every part of a part set whose pieces are the bytes of a well-formed block (round %d) but did not reassemble the block", n.idx, rs.Round)
+		}
+		return
+	}
 	if m.assembled[key] {
 		return
 	}
